@@ -1376,9 +1376,10 @@ class Cycles:
 
     def pick_cycle_subset(self, conditions):
         """Set conditions to define subsets + chains. This is not reversible for the moment."""
-        self.mask_conditions = conditions
-
+        # Evaluate first - rejected conditions must not replace the current selection
         valids = self.get_matching_cycles(conditions)
+
+        self.mask_conditions = conditions
         self.subset_vect = get_subset_vector(valids)
         self.chain_vect = get_chain_vector(self.subset_vect)
 
